@@ -1,3 +1,11 @@
+//! vf-eng-b: engine-level resource checks — C03 conservation per transaction, C04 supply/vault
+//! history invariant, C09 worktop/bucket/proof accounting, C10 funds behind live proofs.
+
+pub mod c09;
+pub mod judge;
+pub mod mgen;
+pub mod session;
+
 pub fn checks() -> Vec<vf_core::Check> {
-    vec![]
+    vec![c09::check()]
 }
